@@ -206,7 +206,7 @@ def run(ctx):
 
 def finish_args(ctx):
     return dict(
-        level="translation_validation",
+        level="exploration",
         theorems=THEOREMS,
         rule="a fixed list of 11 API requests (ground-state energies, amplitudes, expectation value, norm factor, precursor overlap, "
              "pp/ip secular blocks, ISR expectation value and transition moment) executed in fresh interpreters for (hash seed, prior "
